@@ -21,7 +21,8 @@ def tasks(tier):
     T = []
     for s in range(4):
         T.append(Task('props.bounded_C08:drv_weights', name='C08/bounded/weights.%d' % s, tier=tier, shard=s, nshard=4, timeout=900))
-    T.append(Task('props.bounded_C08:drv_weights200', name='C08/bounded/weights200', tier=tier, timeout=900))
+    for s in range(4):
+        T.append(Task('props.bounded_C08:drv_weights200', name='C08/bounded/weights200.%d' % s, tier=tier, shard=s, nshard=4, timeout=900))
     for s in range(4):
         T.append(Task('props.bounded_C08:drv_axis1d', name='C08/bounded/axis1d.%d' % s, tier=tier, shard=s, nshard=4, timeout=900))
     for s in range(4):
@@ -162,17 +163,22 @@ def drv_weights(tier, shard, nshard):
     return d.results()
 
 
-def drv_weights200(tier):
+def drv_weights200(tier, shard, nshard):
     import numpy
     from dadi import Numerics
-    nn = 14 if tier == 'quick' else 60
-    d = Driver('C08', 'weights200',
-               bound='sampled 41<=n<=200 (%d values incl. 41,199,200), m in {1,2,n//2,n-1,n} + %d random, all hits, all k: exact integer-ratio '
+    nn = 16 if tier == 'quick' else 160
+    d = Driver('C08', 'weights200.%d' % shard,
+               bound='shard %d/%d of: %s 41<=n<=200, m in {1,2,n//2,n-1,n} + %d random, all hits, all k: exact integer-ratio '
                      'weights C(m,k)C(n-m,h-k)/C(n,h) (correctly rounded), relative error <= %g inside the support, exactly 0 outside; 1-D neutral spectrum 1/i is a fixed point of '
-                     'Spectrum.project for those n and ALL 1<=m<=n (rel %g), total conserved' % (nn, 3 if tier == 'quick' else 8, RTOL200, RTOL_FS))
+                     'Spectrum.project for those n and ALL 1<=m<=n (rel %g), total conserved' % (shard, nshard, '16 seeded-random values (incl. 41,199,200) of' if tier == 'quick' else 'ALL', 3 if tier == 'quick' else 8, RTOL200, RTOL_FS))
     import dadi
-    ns = sorted(set([41, 199, 200] + [d.rng.randint(42, 198) for _ in range(nn - 3)]))
-    for n in ns:
+    import random
+    from vf.common import seed
+    xr = random.Random(seed() * 17 + 5)                       # the list of n must be identical in every shard
+    ns = sorted([41, 199, 200] + xr.sample(range(42, 199), nn - 3)) if tier == 'quick' else list(range(41, 201))
+    for ni, n in enumerate(ns):
+        if ni % nshard != shard:
+            continue
         ms = sorted(set([1, 2, n // 2, n - 1, n] + [d.rng.randint(1, n) for _ in range(3 if tier == 'quick' else 8)]))
         for m in ms:
             for h in range(n + 1):
@@ -299,7 +305,7 @@ def _rand_mask(r, rng, shape, kind):
 
 def drv_nd(tier, shard, nshard):
     import numpy, dadi
-    ncase = (40 if tier == 'quick' else 500)
+    ncase = (100 if tier == 'quick' else 800)
     maxn = {1: 40, 2: 14, 3: 8, 4: 5}
     d = Driver('C08', 'nd.%d' % shard,
                bound='%d random cases per dimension 1..4 (shard %d/%d; sample sizes per axis 1..%s, targets 1<=m<=n incl. m=n and m=1, C-, '
